@@ -339,6 +339,15 @@ pub fn run(ctx: &Ctx) -> Outcome {
             }
         };
         if len == usize::MAX - 1 {
+            // things that look almost like a reference and must be copied verbatim (or resolved
+            // exactly as documented): signs, dots, spaces and empty names inside the delimiters
+            for tpl in [
+                "${-}", "${-1}", "${-12}x", "${+1}", "${1-}", "${-a}", "$-1", "${ 1}", "${1 }", "${1.}", "${.}", "${}", "${{1}}", "$ {1}", "\\g<-1>", "\\g<-12>", "\\g<+1>", "\\g<1->", "\\g< 1>", "\\g<>", "\\g<1", "\\g1", "\\-1",
+                "a${-1}b$1", "${1}${-1}", "\\g<1>\\g<-1>", "${x-y}", "\\g<x-y>",
+            ] {
+                one(acc, tpl);
+                acc.count("near-miss-templates");
+            }
             for n in ["4294967296", "4294967297", "9223372036854775807", "9223372036854775808", "9223372036854775809", "18446744073709551614", "18446744073709551615", "18446744073709551616", "99999999999999999999", "340282366920938463463374607431768211456"] {
                 for tpl in [format!("${}", n), format!("<${{{}}}>", n), format!("${} $0", n), format!("\\{}", n), format!("\\g<{}>x", n), format!("a${}b\\g<{}>", n, n)] {
                     one(acc, &tpl);
@@ -360,7 +369,7 @@ pub fn run(ctx: &Ctx) -> Outcome {
     let mut out = Outcome::new(acc);
     out.distinct_nontrivial = out.acc.distinct;
     out.exhaustive = true;
-    out.rule = format!("all templates over the 14 symbols $ {{ }} \\ g < > 0 1 9 x _ é space up to length {} (exhaustive, {} templates) plus {} seeded random ones of length 2-16, plus 60 templates with group numbers around 2^32, 2^63, 2^64 and beyond, half of the random ones over a wider alphabet with non-ASCII digits / letters / marks (٣ ² π １ · ⅷ combining acute, emoji); x 6 capture sets (named incl. digit-only names, a group literally named 1x and an unmatched group, on both routes; 10 numbered groups; multi-byte and empty group texts) x both expanders x expansion / append_expansion / write_expansion (into a Vec and into writers that take 1 or 3 bytes per call) / write_expansion_vec / Captures::expand against the model and each other; expansion(escape(s)) = s; check = Ok => every reference the model extracts names an existing group. Non-trivial: distinct templates containing >= 1 substitution under either syntax.", maxlen, (0..=maxlen).map(|l| 14u64.pow(l as u32)).sum::<u64>(), n_random);
+    out.rule = format!("all templates over the 14 symbols $ {{ }} \\ g < > 0 1 9 x _ é space up to length {} (exhaustive, {} templates) plus {} seeded random ones of length 2-16, plus 60 templates with group numbers around 2^32, 2^63, 2^64 and beyond and 28 near-miss references with signs, blanks, dots or nothing inside the delimiters, half of the random ones over a wider alphabet with non-ASCII digits / letters / marks (٣ ² π １ · ⅷ combining acute, emoji); x 6 capture sets (named incl. digit-only names, a group literally named 1x and an unmatched group, on both routes; 10 numbered groups; multi-byte and empty group texts) x both expanders x expansion / append_expansion / write_expansion (into a Vec and into writers that take 1 or 3 bytes per call) / write_expansion_vec / Captures::expand against the model and each other; expansion(escape(s)) = s; check = Ok => every reference the model extracts names an existing group. Non-trivial: distinct templates containing >= 1 substitution under either syntax.", maxlen, (0..=maxlen).map(|l| 14u64.pow(l as u32)).sum::<u64>(), n_random);
     out.assumptions = vec!["the model (c12.rs parse_default / parse_python) is written from the documentation of Captures::expand and Expander::python".into()];
     let rs = route_seen.load(Ordering::Relaxed);
     let subst = out.acc.get("expansions-with-nonempty-substitution");
